@@ -9,5 +9,5 @@ EmitSerial == (hist = <<>> \/ ~PortsExist(st[1]) \/ TLCGet("distinct") % SampleK
                                 orderports |-> [k \in 1..Len(Serialize(st[1]).nodes) |->
                                      LET w == WireOp(Serialize(st[1]).nodes[k].op) IN
                                      <<IF HasOrder(w, "out") THEN OrderOffset(w, "out") ELSE -1, IF HasOrder(w, "in") THEN OrderOffset(w, "in") ELSE -1>>],
-                                wireops |-> [t \in {"root", "a", "b", "const"} |-> WireOp(t)]]))
+                                wireops |-> [t \in {"root", "a", "b", "const", "call", "loadf", "loadc"} |-> WireOp(t)]]))
 =============================================================================
